@@ -270,7 +270,7 @@ pub fn throw_class(e: &JsError) -> Completion {
                 let s = l.to_string();
                 let kind = if s.contains("loop") {
                     "loop"
-                } else if s.contains("recursion") {
+                } else if s.contains("recursion") || s.contains("recursive") {
                     "recursion"
                 } else if s.contains("stack") {
                     "stack"
@@ -453,7 +453,8 @@ pub fn run_with(src: &str, cfg: &RunCfg, setup: impl FnOnce(&mut Context)) -> Tr
         }
         let r = eval_in(&mut ctx, src, cfg);
         let mut completion = classify(&r, src);
-        if cfg.run_jobs && !matches!(completion, Completion::EarlySyntaxError) {
+        // convention shared with the V8 oracle: jobs are drained after a normal completion only
+        if cfg.run_jobs && !matches!(completion, Completion::EarlySyntaxError | Completion::Throw(_)) {
             if let Err(e) = ctx.run_jobs() {
                 let c = throw_class(&e);
                 if c.is_internal_failure() || c.is_limit() {
